@@ -1,0 +1,27 @@
+//go:build verif
+// +build verif
+
+package service
+
+// Export for the verification harness (/verif, property C19).  Built only with
+// the "verif" tag; adds no behaviour to the package.
+
+import (
+	"net"
+	"net/http"
+
+	"github.com/cnotch/xlog"
+	"github.com/kelindar/tcp"
+)
+
+// VerifListen runs the production (*Service).listen — the multiplexing
+// listener with the RTSP and HTTP matchers in their registration order — on
+// addr, handing RTSP connections to onRTSP and HTTP requests to handler.
+func VerifListen(addr *net.TCPAddr, onRTSP func(net.Conn), handler http.Handler) {
+	s := &Service{
+		logger: xlog.L(),
+		http:   &http.Server{Handler: handler},
+		rtsp:   &tcp.Server{OnAccept: tcp.OnAccept(onRTSP)},
+	}
+	s.listen(addr, nil)
+}
